@@ -604,7 +604,7 @@ def seq_parts(t):
     if t[0] == "bin" and t[1] == "+":
         a, b = seq_parts(t[2]), seq_parts(t[3])
         return None if a is None or b is None else a + b
-    if t[0] == "comp" and t[1] == "list" and len(t[3]) == 1 and \
+    if t[0] == "comp" and t[1] in ("list", "gen") and len(t[3]) == 1 and \
             not t[3][0][2]:
         return [("each", t[2], t[3][0][1])]
     if t[0] == "mut" and t[2] == "append" and len(t[3]) == 1:
@@ -666,25 +666,33 @@ def apply_partials(t):
 
 
 def text_parts(t):
-    """Pieces of a string built by  sep.join([a, b, ...])  or an f-string,
-    as a flat list of terms (constant pieces as ('const', str)); None when
-    the construction is not recognised."""
-    if t[0] == "mcall" and t[2] == "join" and t[1][0] == "const" and \
-            len(t[3]) == 1 and t[3][0][0] in ("list", "tuple"):
-        out = []
-        for i, x in enumerate(t[3][0][1]):
-            if i and t[1][1] != "":
-                out.append(t[1])
-            out.append(x)
-        return out
-    if t[0] == "fstr":
-        return [x for x in t[1] if x != ("const", "")]
-    if t[0] == "bin" and t[1] == "+":
-        a, b = text_parts(t[2]), text_parts(t[3])
-        return None if a is None or b is None else a + b
-    if t[0] == "const" and isinstance(t[1], str):
-        return [t]
-    return None
+    """Pieces of a string built by  sep.join([a, b, ...]), an f-string or
+    +, flattened recursively; adjacent constant pieces are merged.  A term
+    that is none of these is a single piece."""
+    def rec(x):
+        if x[0] == "mcall" and x[2] == "join" and x[1][0] == "const" and \
+                len(x[3]) == 1 and x[3][0][0] in ("list", "tuple"):
+            out = []
+            for i, y in enumerate(x[3][0][1]):
+                if i and x[1][1] != "":
+                    out.append(x[1])
+                out.extend(rec(y))
+            return out
+        if x[0] == "fstr":
+            return [z for y in x[1] for z in rec(y)]
+        if x[0] == "bin" and x[1] == "+":
+            return rec(x[2]) + rec(x[3])
+        return [x]
+    merged = []
+    for x in rec(t):
+        if x == ("const", ""):
+            continue
+        if merged and x[0] == "const" and merged[-1][0] == "const" and \
+                isinstance(x[1], str) and isinstance(merged[-1][1], str):
+            merged[-1] = ("const", merged[-1][1] + x[1])
+        else:
+            merged.append(x)
+    return merged
 
 
 def unmap(t):
@@ -696,3 +704,14 @@ def unmap(t):
             return ("call", x[1][2][0][1], (("elem", x[1][2][1]),), ())
         return x
     return map_term(t, f)
+
+
+def items_as_subs(t):
+    """('item', x, i) -> x[i]: unpacked elements and indexed elements of a
+    record compare equal"""
+    return map_term(t, lambda x: ("sub", x[1], ("const", x[2]))
+                    if x[0] == "item" and isinstance(x[2], int) else x)
+
+
+def flat_text(t):
+    return text_parts(t)
